@@ -57,6 +57,9 @@ pub fn ie<T: CustomCode>(e: InternalError<T>) -> E {
         InternalError::IncompatibleEnvelopeModeError => E::Lib("IncompatibleEnvelopeModeError".into()),
         InternalError::OprfError(_) => E::Lib("OprfError".into()),
         InternalError::OprfInternalError(_) => E::Lib("OprfInternalError".into()),
+        // the error enums are not #[non_exhaustive]: a tree under test may have grown a variant
+        #[allow(unreachable_patterns)]
+        _ => E::Lib("OtherInternalError".into()),
     }
 }
 pub fn pe<T: CustomCode>(e: ProtocolError<T>) -> E {
@@ -66,6 +69,8 @@ pub fn pe<T: CustomCode>(e: ProtocolError<T>) -> E {
         ProtocolError::SerializationError => E::Serialization,
         ProtocolError::ReflectedValueError => E::Reflected,
         ProtocolError::IdentityGroupElementError => E::IdentityElement,
+        #[allow(unreachable_patterns)]
+        _ => E::Lib("OtherProtocolError".into()),
     }
 }
 
